@@ -22,7 +22,7 @@ impl Beta {
     /// # Errors
     /// Panics if `alpha <= 0` or `beta <= 0`.
     pub fn new(alpha: f64, beta: f64) -> Self {
-        if alpha <= 0. || beta <= 0. {
+        if !(alpha > 0. && beta > 0.) {
             panic!("Both alpha and beta must be positive.");
         }
         Beta {
@@ -33,7 +33,7 @@ impl Beta {
         }
     }
     pub fn set_alpha(&mut self, alpha: f64) -> &mut Self {
-        if alpha <= 0. {
+        if !(alpha > 0.) {
             panic!("Alpha must be positive.");
         }
         self.alpha = alpha;
@@ -41,7 +41,7 @@ impl Beta {
         self
     }
     pub fn set_beta(&mut self, beta: f64) -> &mut Self {
-        if beta <= 0. {
+        if !(beta > 0.) {
             panic!("Beta must be positive.");
         }
         self.beta = beta;
